@@ -423,7 +423,33 @@ def rule_closure_wildcards(toks):
     return out, fired
 
 
+def rule_reals(toks):
+    """X6: ideal-number instantiation.  F -> R everywhere; `where R: Float` dropped; the generic parameter list `<R>`
+    is dropped after `fn NAME`, `enum NAME` and after the type name LineIntersection (re-declared non-generic)."""
+    toks, fired = rule_subst(toks, {"F": "R"})
+    out, i = [], 0
+    while i < len(toks):
+        t = toks[i]
+        if t.text == "where" and [x.text for x in toks[i + 1:i + 4]] == ["R", ":", "Float"]:
+            i += 4
+            if i < len(toks) and toks[i].text == ",":
+                i += 1
+            fired += 1
+            continue
+        if t.text == "<" and [x.text for x in toks[i + 1:i + 3]] == ["R", ">"] and out:
+            prev = out[-1]
+            prev2 = out[-2].text if len(out) > 1 else ""
+            if prev.text == "LineIntersection" or prev2 in ("fn", "enum"):
+                i += 3
+                fired += 1
+                continue
+        out.append(t)
+        i += 1
+    return out, fired
+
+
 RULES = {
+    "reals": lambda toks, st, arg: rule_reals(toks),
     "subst_seq": lambda toks, st, arg: rule_subst_seq(toks, arg),
     "closure_wildcards": lambda toks, st, arg: rule_closure_wildcards(toks),
     "drop_attrs": lambda toks, st, arg: rule_drop_attrs(toks),
@@ -554,6 +580,13 @@ def generate(unit, repo=None, canary=False):
     parts.append("verus! {\n")
     if "prelude" in cfg:
         parts.append(open(os.path.join(cfg["dir"], cfg["prelude"])).read())
+    for sh in cfg.get("shared", []):
+        # shared specification text (contracts/shared/*): the same file the Kani harnesses include verbatim;
+        # here every `pub fn` becomes `pub open spec fn`
+        stext = open(os.path.join(VERIF, "contracts", "shared", sh)).read()
+        info.setdefault("shared_spec_sha", {})[sh] = hashlib.sha256(stext.encode()).hexdigest()[:16]
+        parts.append(f"// ---- shared specification text {sh} (pub fn -> pub open spec fn) ----\n")
+        parts.append(re.sub(r"(?m)^pub fn ", "pub open spec fn ", stext))
     # two passes so that rule state (e.g. the set of mutating methods) reaches a fixed point across sections
     extracted = []
     for _ in range(2):
